@@ -41,7 +41,8 @@ type NegativeBinomialDistribution struct {
 /* -------------------------------------------------------------------------- */
 
 func NewNegativeBinomialDistribution(r, p Scalar) (*NegativeBinomialDistribution, error) {
-  if r.GetFloat64() <= 0.0 || p.GetFloat64() < 0.0 || p.GetFloat64() > 1.0 {
+  // p = 1 is excluded: (1-p)^r = 0 leaves no mass at all
+  if !(r.GetFloat64() > 0.0) || !(p.GetFloat64() >= 0.0 && p.GetFloat64() < 1.0) {
     return nil, fmt.Errorf("invalid parameters")
   }
   t := r.Type()
